@@ -498,3 +498,5 @@ MANIFEST = {
     "note": "Trusted: Lean kernel; axioms {propext, Quot.sound}; the harness that maps `with`/decorator executions to "
             "enter/exit events; Python's `with` semantics. Non-LIFO (generator-interleaved) exits are outside the quantifier.",
 }
+
+MANIFEST_ADDENDUM = "Oracle additions: inside no_autodiff, in-place updates keep the gradients, base links and consumer sets of target, view and operand; reading an existing view's lazily derived .grad (or base, repr) leaves the switches as the scope set them."
